@@ -184,3 +184,160 @@ fn kd7_zlib_starved_finish() {
     core::mem::forget(stream);
     core::mem::forget(state);
 }
+
+// ---------------------------------------------------------------------------------------------------------------
+// gzip wrapper: header fields supplied with deflateSetHeader are written exactly as RFC 1952 prescribes, however the
+// output is chunked and although the pending buffer (16 bytes here) is smaller than the header (C20, C05).
+// ---------------------------------------------------------------------------------------------------------------
+const LBG: usize = 4; // pending = 16 bytes, smaller than a header with fields
+
+fn gzip_header_instance(first_space: u32) {
+    let mut w = [0u8; 2 << WB7];
+    let mut p = [0u16; 1 << WB7];
+    let mut h = [0u16; HASH_SIZE];
+    let mut pe = [MaybeUninit::new(0u8); 4 * LBG];
+    let mut sy = [0u8; 3 * LBG];
+    let level: i8 = kani::any();
+    kani::assume(level >= 0 && level <= 9);
+    let mut state = typed_state(&mut w, &mut p, &mut h, &mut pe, &mut sy, WB7, LBG, level, 2, Strategy::Default);
+    state.window_size = 2 << WB7;
+    state.last_flush = -2;
+    state.status = Status::GZip;
+    // header contents
+    // extra up to 6 bytes and name up to 7 characters: either can be larger than what is left of the 16-byte pending
+    // buffer after the 10 fixed header bytes, which is the path that resumes a field across calls
+    let mut extra: [u8; 6] = kani::any();
+    let mut name: [u8; 8] = kani::any();
+    let mut comment: [u8; 3] = kani::any();
+    name[7] = 0;
+    comment[2] = 0;
+    let mut gz = gz_header::default();
+    gz.text = kani::any();
+    gz.time = kani::any::<u32>() as _;
+    gz.os = kani::any::<u8>() as i32;
+    gz.hcrc = if kani::any() { 1 } else { 0 };
+    let has_extra: bool = kani::any();
+    let xlen: u32 = kani::any();
+    kani::assume(xlen <= 6);
+    if has_extra {
+        gz.extra = extra.as_mut_ptr();
+        gz.extra_len = xlen;
+    }
+    let has_name: bool = kani::any();
+    if has_name {
+        gz.name = name.as_mut_ptr();
+    }
+    let has_comment: bool = kani::any();
+    if has_comment {
+        gz.comment = comment.as_mut_ptr();
+    }
+    state.gzhead = Some(unsafe { &mut *(&mut gz as *mut gz_header) });
+    let mut stream = typed_stream(unsafe { &mut *(&mut state as *mut State) });
+    stream.adler = 0;
+    let input = [5u8, 6];
+    let mut out = [0u8; 48];
+    stream.next_in = input.as_ptr() as *mut u8;
+    stream.avail_in = 2;
+    stream.next_out = out.as_mut_ptr();
+    // the first call gets `first_space` bytes of room, later calls 6 bytes each (so the header drains over several calls)
+    stream.avail_out = first_space;
+    let mut rc = deflate(&mut stream, DeflateFlush::Finish);
+    let mut calls = 1;
+    while calls < 9 && rc == ReturnCode::Ok {
+        stream.avail_out = 6;
+        rc = deflate(&mut stream, DeflateFlush::Finish);
+        calls += 1;
+    }
+    assert!(rc == ReturnCode::StreamEnd, "buffer-full is never fatal; Finish with fresh space reaches the end");
+    let produced = stream.total_out as usize;
+    // expected header, byte by byte (RFC 1952 2.3)
+    let mut e = [0u8; 48];
+    let mut n = 0;
+    e[0] = 0x1f;
+    e[1] = 0x8b;
+    e[2] = 8;
+    e[3] = (gz.text != 0) as u8 | ((gz.hcrc != 0) as u8) << 1 | (has_extra as u8) << 2 | (has_name as u8) << 3 | (has_comment as u8) << 4;
+    let t = (gz.time as u32).to_le_bytes();
+    e[4] = t[0];
+    e[5] = t[1];
+    e[6] = t[2];
+    e[7] = t[3];
+    e[8] = if level == 9 { 2 } else if level < 2 { 4 } else { 0 };
+    e[9] = gz.os as u8;
+    n = 10;
+    if has_extra {
+        e[n] = xlen as u8;
+        e[n + 1] = 0;
+        n += 2;
+        let mut k = 0;
+        while k < 6 {
+            if (k as u32) < xlen {
+                e[n] = extra[k];
+                n += 1;
+            }
+            k += 1;
+        }
+    }
+    if has_name {
+        let mut k = 0;
+        let mut done = false;
+        while k < 8 {
+            if !done {
+                e[n] = name[k];
+                n += 1;
+                done = name[k] == 0;
+            }
+            k += 1;
+        }
+    }
+    if has_comment {
+        let mut k = 0;
+        let mut done = false;
+        while k < 3 {
+            if !done {
+                e[n] = comment[k];
+                n += 1;
+                done = comment[k] == 0;
+            }
+            k += 1;
+        }
+    }
+    if gz.hcrc != 0 {
+        let c = crate::crc32::crc32(0, &e[..n]);
+        e[n] = c as u8;
+        e[n + 1] = (c >> 8) as u8;
+        n += 2;
+    }
+    // trailer: CRC-32 of no data (the stub emitted none; the folding state starts at 0) and ISIZE = 2
+    assert!(produced == n + 8);
+    let j: usize = kani::any();
+    kani::assume(j < n);
+    assert!(out[j] == e[j], "gzip header bytes");
+    assert!(out[n] == 0 && out[n + 1] == 0 && out[n + 2] == 0 && out[n + 3] == 0, "CRC-32 of the empty data");
+    assert!(out[n + 4] == 2 && out[n + 5] == 0 && out[n + 6] == 0 && out[n + 7] == 0, "ISIZE");
+    kani::cover!(has_extra && has_name && has_comment && gz.hcrc != 0 && xlen == 6 && name[0] != 0 && name[1] != 0 && name[2] != 0 && name[3] != 0 && name[4] != 0 && name[5] != 0 && name[6] != 0, "longest header");
+    kani::cover!(!has_extra && has_name && name[0] != 0 && name[1] != 0 && name[2] != 0 && name[3] != 0 && name[4] != 0 && name[5] != 0 && name[6] != 0, "name larger than the room left in the pending buffer");
+    kani::cover!(!has_extra && !has_name && !has_comment && gz.hcrc == 0);
+    core::mem::forget(stream);
+    core::mem::forget(state);
+}
+
+macro_rules! gzip_header_harness {
+    ($name:ident, $space:expr) => {
+        #[kani::proof]
+        #[kani::unwind(10)]
+        #[kani::stub(core::fmt::write, stub_fmt_write)]
+        #[kani::stub(core::panicking::panic_nounwind, stub_pn)]
+        #[kani::stub(core::panicking::panic_nounwind_fmt, stub_pnf)]
+        #[kani::stub(crate::deflate::algorithm::run, stub_run_consume_all)]
+        #[kani::stub(<[u16]>::fill, stub_fill_zero)]
+        #[kani::stub(crate::crc32::crc32, stub_crc_model)]
+        fn $name() {
+            gzip_header_instance($space);
+        }
+    };
+}
+gzip_header_harness!(kd7_gzip_header_space1, 1);
+gzip_header_harness!(kd7_gzip_header_space5, 5);
+gzip_header_harness!(kd7_gzip_header_space13, 13);
+gzip_header_harness!(kd7_gzip_header_space40, 40);
